@@ -129,7 +129,12 @@ func (g *G) bytesN(n int) []byte {
 	}
 	return b
 }
-func (g *G) str() string { return string(g.bytesN(g.strLen())) }
+func (g *G) str() string {
+	if g.r.Chance(specialPct) { // content that looks like an address / a number / odd text (special.go)
+		return string(g.specialBytes())
+	}
+	return string(g.bytesN(g.strLen()))
+}
 
 // blob: nil, empty or populated.
 func (g *G) blob() []byte {
@@ -138,6 +143,9 @@ func (g *G) blob() []byte {
 		return nil
 	case 1:
 		return []byte{}
+	}
+	if g.r.Chance(specialPct) {
+		return g.specialBytes()
 	}
 	return g.bytesN(g.strLen())
 }
